@@ -122,7 +122,8 @@ impl Resolver<usize> for ResolveScope<'_> {
             LitOrRef::Lit(lit) => Ok(*lit),
             LitOrRef::Ref(name) => {
                 match self.value_reference(name).map(|vr| vr.value.to_integer()) {
-                    Some(Some(value)) => Ok(value as usize),
+                    Some(Some(value)) => <usize as std::convert::TryFrom<i64>>::try_from(value)
+                        .map_err(|_| Error::FailedToParseLiteral(format!("name: {}", name))),
                     Some(None) => Err(Error::FailedToParseLiteral(format!("name: {}", name))),
                     None => Err(Error::FailedToResolveReference(name.clone())),
                 }
